@@ -33,6 +33,7 @@ ASSUMPTIONS = [
 KNOWN_D16 = "vcs-reference-prefix-equality"
 KNOWN_RESOLVED = "vcs-resolved-reference-equality"
 KNOWN_DEGENERATE = "version-union-local-degenerate-range"
+KNOWN_SUBDIR = "empty-subdirectory-hash"
 SEP = "\x01"
 CALL_LIMIT = 4.0
 
@@ -279,6 +280,10 @@ def classify(kind: str, check: str, objs: list[Obj]) -> str | None:
             return KNOWN_RESOLVED
     if kind == "constraint" and check in ("hash", "reparse-hash") and any(is_degenerate(o.obj) for o in objs):
         return KNOWN_DEGENERATE
+    if kind in ("dep", "pkg", "spec") and check in ("hash", "reparse-hash") and len(objs) == 2 and \
+            ({objs[0].obj.source_subdirectory, objs[1].obj.source_subdirectory} == {"", None}
+             or {objs[0].obj.source_url, objs[1].obj.source_url} == {"", None}):
+        return KNOWN_SUBDIR
     return None
 
 
@@ -410,6 +415,8 @@ FIXED_WITNESS: dict[str, dict[str, Any]] = {
                                "vcs|foo|https://github.com/a/b.git|git|branch|main|abcdef0|-|-",
                                "vcs|foo|https://github.com/a/b.git|git|rev|abcdef0|abcdef0|-|-"]},
     KNOWN_DEGENERATE: {"kind": "constraint", "check": "hash", "specs": ["1.0 || 1.0+local", "1.0+local"]},
+    KNOWN_SUBDIR: {"kind": "dep", "check": "hash",
+                   "specs": ["508|foo @ https://example.com/a.zip#subdirectory=", "508|foo @ https://example.com/a.zip"]},
 }
 
 
@@ -746,3 +753,175 @@ def spec_pool(ctx: core.Ctx) -> list[tuple[str, str]]:
             out.append(("sg2", f"spec|{nm}|git|{u}|dev|-|-|-"))
         out.append(("su", f"spec|{nm}|url|https://example.com/x.whl|-|-|-|-"))
     return out
+
+
+# ----------------------------------------------------------------------------------------
+# structural correspondence with the Lean model (driver op `eqh`)
+# ----------------------------------------------------------------------------------------
+
+MODEL_KINDS = ("version", "constraint", "generic", "extra", "marker")
+
+
+def model_compare(ctx: core.Ctx, kind: str, pool: list[Obj], objs: list[Obj], rows: list[int], hs: list[Any], stream: str) -> None:
+    """model `==` matrix = real `==` matrix; model hash inputs equal => real hashes equal; same objects (dumps); the
+    reachability flag the theorems assume (no degenerate range / coherent marker leaves)"""
+    specs = [o.spec for o in pool]
+    if not specs:
+        return
+    if any(not core.valid_utf8(s) for s in specs):
+        return
+    rep = core.run_driver([core.line("eqh", kind, *specs)], timeout=900)[0]
+    dis = 0
+    if rep[0] != "ok" or len(rep) != 5 + len(specs):
+        ctx.disagree(stream + ":protocol", kind, "ok", rep[:3])
+        ctx.stream(stream + ":model", len(specs), 1)
+        return
+    status, mrows, classes, flags, dumps = rep[1], rep[2].split(","), rep[3].split(","), rep[4], rep[5:]
+    index = {id(o): k for k, o in enumerate(objs)}
+    both: list[tuple[int, int]] = []   # (position in pool, position in objs)
+    for p, o in enumerate(pool):
+        if status[p] == "u":
+            ctx.count(f"{kind}:unmodelled")
+            continue
+        real_ok = o.err is None
+        if real_ok != (status[p] == "o"):
+            dis += 1
+            ctx.disagree(stream + ":accept", {"kind": kind, "spec": o.spec}, o.err or "ok", dumps[p])
+            continue
+        if not real_ok:
+            if dumps[p] != "!" + str(o.err):
+                dis += 1
+                ctx.disagree(stream + ":error-class", {"kind": kind, "spec": o.spec}, o.err, dumps[p])
+            continue
+        if dumps[p] != o.dump:
+            dis += 1
+            ctx.disagree(stream + ":structure", {"kind": kind, "spec": o.spec}, o.dump, dumps[p])
+            continue
+        both.append((p, index[id(o)]))
+        if kind == "constraint" and (flags[p] == "1") != (not is_degenerate(o.obj)):
+            dis += 1
+            ctx.disagree(stream + ":degenerate-flag", {"kind": kind, "spec": o.spec}, is_degenerate(o.obj), flags[p])
+        if kind == "marker":
+            rc = real_coherent(o.obj)
+            ctx.count("marker:coherent:" + ("yes" if rc else "no"))
+            if flags[p] != "1" or not rc:
+                # the invariant `mCoherent` (hypothesis of marker_interchangeable) fails on a reachable object
+                dis += 1
+                ctx.disagree(stream + ":coherence", {"kind": kind, "spec": o.spec}, rc, flags[p])
+    for p, i in both:
+        for q, j in both:
+            real = bool(rows[i] >> j & 1)
+            model = mrows[p][q] == "1"
+            if real != model:
+                dis += 1
+                if dis < 40:
+                    ctx.disagree(stream + ":eq", {"kind": kind, "a": pool[p].spec, "b": pool[q].spec}, real, model)
+            if classes[p] == classes[q] and hs[i] != hs[j]:
+                dis += 1
+                if dis < 40:
+                    ctx.disagree(stream + ":hash-input", {"kind": kind, "a": pool[p].spec, "b": pool[q].spec},
+                                 "hashes differ", "hash inputs equal")
+            if model and classes[p] != classes[q]:
+                ctx.count(f"{kind}:model-eq-with-different-hash-input")
+    ctx.stream(stream + ":model", len(both) * len(both), dis)
+
+
+def real_coherent(m: Any) -> bool:
+    """every SingleMarker inside `m` is what the constructor builds from the marker's own key"""
+    from poetry.core.version.markers import MarkerUnion, MultiMarker, SingleMarker
+    if isinstance(m, (MultiMarker, MarkerUnion)):
+        return all(real_coherent(x) for x in m.markers)
+    if isinstance(m, SingleMarker):
+        sw = m._swapped_name_value
+        cstr = f'"{m.value}" {m.operator}' if sw else f"{m.operator}{m.value}"
+        try:
+            n = SingleMarker(m.name, cstr, swapped_name_value=sw)
+        except Exception:  # noqa: BLE001
+            return False
+        return n._key == m._key and n.constraint == m.constraint and type(n.constraint) is type(m.constraint) \
+            and MC.cdump(n.constraint) == MC.cdump(m.constraint)
+    return True
+
+
+# ----------------------------------------------------------------------------------------
+# entry points
+# ----------------------------------------------------------------------------------------
+
+def pools(ctx: core.Ctx, scale: int) -> list[tuple[str, list[tuple[str, str]]]]:
+    return [("version", version_pool(ctx, 60 * scale)), ("constraint", constraint_pool(ctx, 45 * scale)),
+            ("generic", generic_pool(ctx, False, 20 * scale)), ("extra", generic_pool(ctx, True, 20 * scale)),
+            ("marker", marker_pool(ctx, 24 * scale)), ("dep", dep_pool(ctx, 20 * scale)), ("pkg", pkg_pool(ctx, 20 * scale)),
+            ("spec", spec_pool(ctx))]
+
+
+def run_round(ctx: core.Ctx, scale: int, tag: str, with_model: bool = True) -> None:
+    for kind, specs in pools(ctx, scale):
+        pool = build(ctx, kind, specs)
+        objs, rows, hs = oracle(ctx, kind, pool, f"{tag}:{kind}")
+        if with_model and kind in MODEL_KINDS:
+            model_compare(ctx, kind, pool, objs, rows, hs, f"{tag}:{kind}")
+        if kind == "marker":
+            MC.clear_caches()
+
+
+def corpus(ctx: core.Ctx) -> None:
+    """fixed witnesses of the recorded classes and of the repaired defects (35cdee8, 3f2b755)"""
+    for key, w in FIXED_WITNESS.items():
+        replay(ctx, w)
+    for kind, specs in (("marker", ['"lin" in sys_platform', 'sys_platform in "lin"', "'lin' in sys_platform", 'sys_platform == "lin"']),
+                        ("version", ["1.0", "1.0+0", "1.0+a", "1.0.0", "1.0+0.0"]),
+                        ("constraint", ["1.0", ">=1.0,<=1.0", "1.0.0", "1.0 || 1.0.0", "1.0+local || 1.0", "1.0 || 1.0+local || 3.0", "1.0+local || 3.0"]),
+                        ("dep", ["508|foo @ https://example.com/a.zip#subdirectory=", "508|foo @ https://example.com/a.zip", "url|foo|https://example.com/a.zip|-|-"])):
+        pool = build(ctx, kind, [("corpus", s) for s in specs])
+        objs, rows, hs = oracle(ctx, kind, pool, "corpus:" + kind)
+        if kind in MODEL_KINDS:
+            model_compare(ctx, kind, pool, objs, rows, hs, "corpus:" + kind)
+
+
+def correspondence(ctx: core.Ctx) -> None:
+    corpus(ctx)
+    for r in range(ctx.budget(1, 10)):
+        run_round(ctx, 1 if not ctx.thorough else 2, f"round{r}")
+
+
+def search(ctx: core.Ctx) -> None:
+    """a proof or the correspondence broke: look for a failing input of the property on the real code, first around the
+    disagreeing inputs, then in fresh larger pools"""
+    by_kind: dict[str, list[tuple[str, str]]] = {}
+    for d in ctx.disagreements:
+        inp = d.get("input")
+        if isinstance(inp, dict) and "kind" in inp:
+            for k in ("spec", "a", "b"):
+                if k in inp:
+                    by_kind.setdefault(inp["kind"], []).append(("dis", inp[k]))
+    fam = {"version": VERSION_FAMILIES, "constraint": CONSTRAINT_FAMILIES, "generic": GENERIC_FAMILIES, "extra": EXTRA_FAMILIES,
+           "marker": MARKER_FAMILIES}
+    for kind, specs in by_kind.items():
+        extra = [(f, s) for f, ss in fam.get(kind, {}).items() for s in ss]
+        pool = build(ctx, kind, specs[:150] + extra)
+        oracle(ctx, kind, pool, "search:" + kind)
+    for r in range(6):
+        if ctx.violations and any(classify_key(v.key) is None for v in ctx.violations):
+            break
+        run_round(ctx, 2, f"search{r}", with_model=False)
+
+
+def classify_key(key: str) -> str | None:
+    return key if key in FIXED_WITNESS else None
+
+
+def replay(ctx: core.Ctx, payload: dict[str, Any]) -> bool:
+    w = payload.get("witness", payload)
+    kind, check = w["kind"], w.get("check")
+    before = {v.key for v in ctx.violations}
+    pool = build(ctx, kind, [("replay", s) for s in w["specs"]])
+    sub = core.Ctx(ctx.prop, ctx.tier, ctx.seed)
+    oracle(sub, kind, pool, "replay")
+    hit = False
+    for v in sub.violations:
+        vw = v.witness if isinstance(v.witness, dict) else {}
+        if check is None or vw.get("check") == check:
+            hit = True
+            if v.key not in before:
+                ctx.violations.append(v)
+    return hit
